@@ -79,6 +79,12 @@ class Matcher:
         r = self.ctx.p.canonical(self.fi.module.resolve(d))
         if r in self.SIGNATURES:
             return r
+        f = self.ctx.p.functions.get(r)
+        if f is not None and f.cls is None and f.node.args.vararg is None and f.node.args.kwarg is None:
+            # a module level function of the package: its own parameter list
+            self.SIGNATURES = dict(self.SIGNATURES)
+            self.SIGNATURES[r] = tuple(a.arg for a in f.node.args.args + f.node.args.kwonlyargs)
+            return r
         return d if d in self.SIGNATURES else None
 
     def _by_name(self, call: ast.Call, sig: str):
@@ -103,6 +109,10 @@ class Matcher:
         return self.ctx.p.canonical(self.fi.module.resolve(d))
 
     def _m(self, pat, node, bind: dict, ebind: dict, enodes: dict) -> bool:
+        # typing.cast(T, x) is x
+        if isinstance(node, ast.Call) and len(node.args) == 2 and not node.keywords and dotted(node.func) in ('cast', 'typing.cast') \
+                and not (isinstance(pat, ast.Call) and dotted(pat.func) in ('cast', 'typing.cast')):
+            return self._m(pat, node.args[1], bind, ebind, enodes)
         if isinstance(pat, ast.Name) and pat.id.startswith(MVE):
             key = pat.id[len(MVE):]
             if not isinstance(node, ast.expr):
@@ -146,10 +156,6 @@ class Matcher:
                     return True
                 if isinstance(pat, ast.Name) or isinstance(node, ast.Name):
                     return False
-        # typing.cast(T, x) is x
-        if isinstance(node, ast.Call) and len(node.args) == 2 and not node.keywords and dotted(node.func) in ('cast', 'typing.cast') \
-                and not (isinstance(pat, ast.Call) and dotted(pat.func) in ('cast', 'typing.cast')):
-            return self._m(pat, node.args[1], bind, ebind, enodes)
         # an intermediate variable is transparent: a structured pattern is matched against the
         # definition of a local that has exactly one reaching plain assignment
         if isinstance(node, ast.Name) and isinstance(getattr(node, 'ctx', None), ast.Load) and isinstance(pat, ast.expr) \
